@@ -36,7 +36,7 @@ func (g *vfC02G) spec(maxNodes int) VfC02Spec {
 	for i := 0; i < nd; i++ {
 		decls = append(decls, VfC02Decl{Name: vfC02Names[i], Kind: g.pickFrom(vfC02Kinds)})
 	}
-	if g.chance(1, 14) {
+	if g.chance(1, 28) {
 		switch g.r.Intn(6) {
 		case 0:
 			decls = append(decls, VfC02Decl{Name: decls[g.r.Intn(nd)].Name, Kind: g.pickFrom(vfC02Kinds)})
@@ -59,7 +59,7 @@ func (g *vfC02G) spec(maxNodes int) VfC02Spec {
 		}
 	}
 
-	n := g.r.Intn(maxNodes + 1)
+	n := 1 + g.r.Intn(maxNodes)
 	if g.chance(1, 12) {
 		n = 0
 	}
@@ -86,7 +86,7 @@ func (g *vfC02G) spec(maxNodes int) VfC02Spec {
 		} else {
 			nd.Filter = "f1"
 		}
-		if g.chance(1, 40) {
+		if g.chance(1, 80) {
 			nd.Filter = "fx"
 		}
 		switch k := g.r.Intn(20); {
@@ -128,30 +128,48 @@ func (g *vfC02G) spec(maxNodes int) VfC02Spec {
 				laterF = append(laterF, a)
 			}
 		}
+		// aliases that name exactly one later filter node are valid targets
+		cnt := map[string]int{}
+		for _, a := range laterF {
+			cnt[a]++
+		}
+		var laterU []string
+		for _, a := range laterF {
+			if cnt[a] == 1 && a != BuiltInFilterEnd {
+				laterU = append(laterU, a)
+			}
+		}
 		jm := map[string]string{}
 		for _, res := range results {
 			if !g.chance(1, 2) {
 				continue
 			}
 			k := g.r.Intn(100)
+			miss := 7 // percentage of near-miss targets
+			if g.adv {
+				miss = 30
+			}
 			switch {
-			case k < 62 && len(laterF) > 0:
-				jm[res] = g.pickFrom(laterF)
-			case k < 74:
-				jm[res] = BuiltInFilterEnd
-			case k < 82:
-				jm[res] = g.pickFrom(earlier)
-			case k < 89:
-				jm[res] = g.pickFrom(vfC02Aliases)
-			case k < 95 && len(laterE) > 0:
-				jm[res] = g.pickFrom(laterE)
-			case k < 97:
-				jm[res] = ""
+			case k < miss:
+				switch j := g.r.Intn(8); {
+				case j < 2:
+					jm[res] = g.pickFrom(earlier)
+				case j < 4:
+					jm[res] = g.pickFrom(vfC02Aliases)
+				case j < 7 && len(laterE) > 0:
+					jm[res] = g.pickFrom(laterE)
+				case j < 7 && len(laterF) > 0:
+					jm[res] = g.pickFrom(laterF)
+				default:
+					jm[res] = ""
+				}
+			case k < 82 && len(laterU) > 0:
+				jm[res] = g.pickFrom(laterU)
 			default:
 				jm[res] = BuiltInFilterEnd
 			}
 		}
-		if g.chance(1, 18) {
+		if g.chance(1, 40) {
 			jm[g.pick("rX", "r1", "r2", "r3")] = BuiltInFilterEnd
 		}
 		if len(jm) > 0 {
@@ -181,11 +199,11 @@ func (g *vfC02G) script(specs ...*VfC02Spec) []string {
 	for i := 0; i < n; i++ {
 		k := g.r.Intn(100)
 		switch {
-		case k < 40:
+		case k < 55:
 			out = append(out, "")
-		case k < 75 && len(mapped) > 0:
+		case k < 90 && len(mapped) > 0:
 			out = append(out, g.pickFrom(mapped))
-		case k < 97:
+		case k < 98:
 			out = append(out, g.pick("r1", "r2", "r3"))
 		default:
 			out = append(out, "rX")
